@@ -192,8 +192,8 @@ def check_query(ctx: Ctx, case) -> None:
 
 
 PARTS: list[Part] = [
-    hyp_part("chart", strat_chart, check_chart, {"quick": 300, "thorough": 6000},
+    hyp_part("chart", strat_chart, check_chart, {"quick": 500, "thorough": 6000},
              {"quick": 8, "thorough": 16}),
-    hyp_part("query", strat_query, check_query, {"quick": 300, "thorough": 6000},
+    hyp_part("query", strat_query, check_query, {"quick": 500, "thorough": 6000},
              {"quick": 4, "thorough": 16}),
 ]
